@@ -46,6 +46,9 @@ Buffers(k, n) ==
                  c \in {x \in Lens16(IF avail >= 4 THEN avail - 4 ELSE 0) : x < 700},
                  v \in Lens16(IF avail >= 4 THEN avail - 4 ELSE 0), s \in {0, 2, 3}}
             \cup {Set16(b0, 36, c) : c \in {65534, 65535}}
+            (* a count at the top of its range in front of bytes that read as a small vendor length: harmless-looking *)
+            (* if the count (or its even padding) wraps in 16 bits (round6c-1)                                        *)
+            \cup {Set16(Set16(b0, 36, c), 38, v) : c \in {65534, 65535}, v \in {0, 1, 2}}
 
 Init == pc = "pick" /\ kind \in Kinds /\ buf = << >> /\ hist = << >>
 Next ==
